@@ -7,6 +7,7 @@ character over 6000 valid and mutated texts, so the bound leaves > 50x head-room
 """
 import re
 import signal
+import sys
 
 from hypothesis import strategies as st
 
@@ -44,8 +45,12 @@ def _pg():
         from pgradd.Error import RINGSyntaxError, RINGReaderError, RINGError
         from pgradd.RDkitWrapper.MolQuery import MolQuery
         from pgradd.RDkitWrapper.ReactionQuery import ReactionQuery
-        PS = P.ParseState
-        if not getattr(PS, '_verif_wrapped', False):
+        PS = getattr(P, 'ParseState', None)
+        if PS is None or not (hasattr(PS, 'peek') and hasattr(PS, 'take')):
+            # the parser no longer has the two primitives the step counter hooks: count Python-level calls made
+            # while reading instead (same idea, implementation-agnostic, 10x the bound)
+            _m['profile'] = True
+        elif not getattr(PS, '_verif_wrapped', False):
             op, ot = PS.peek, PS.take
 
             def peek(self, n=1):
@@ -64,6 +69,14 @@ def _pg():
     return _m
 
 
+def _prof(frame, event, arg):
+    if event == 'call':
+        _cnt[0] += 1
+        if _cnt[0] > _cnt[1]:
+            sys.setprofile(None)
+            raise StepLimit()
+
+
 def _alarm(signum, frame):
     raise Watchdog()
 
@@ -76,7 +89,15 @@ def read(text):
     old = signal.signal(signal.SIGALRM, _alarm)
     signal.alarm(20)
     try:
-        q = m['Read'](text)
+        if m.get('profile'):
+            _cnt[1] *= 10
+            sys.setprofile(_prof)
+            try:
+                q = m['Read'](text)
+            finally:
+                sys.setprofile(None)
+        else:
+            q = m['Read'](text)
     except StepLimit:
         return ('nontermination', 'more than %d parser steps for %d characters' % (_cnt[1], len(text)))
     except Watchdog:
